@@ -10,7 +10,8 @@ use std::sync::{Arc, Barrier};
 /// record is the same every time, so it travels under a thread number of its own (40 + t) with call number 1
 macro_rules! lit_rec {
     ($t:literal) => {
-        concat!("<", $t, ",1,1,3|lit>\x1b[1m<", $t, ",1,2,3|\x1b[0mmid text>\x1b[4m<", $t, ",1,3,3|end\x1b[m>")
+        // (sequences inside the payloads too: every one of them is a place where the call's output could come apart)
+        concat!("<", $t, ",1,1,3|l\x1b[1mi\x1b[0mt\x1b[3me\x1b[0mr\x1b[4ma\x1b[0ml>\x1b[1m<", $t, ",1,2,3|\x1b[0mm\x1b[31mi\x1b[32md\x1b[33m \x1b[34mt\x1b[35me\x1b[36mx\x1b[0mt>\x1b[4m<", $t, ",1,3,3|e\x1b[1mn\x1b[2md\x1b[m>")
     };
 }
 macro_rules! lit_print {
